@@ -3,7 +3,7 @@ from __future__ import annotations
 
 import ast
 
-from .smt import (T, INT, BOOL, SEQI, TRUE, FALSE, I, And, Or, Not, Eq, Ne, Lt, Le, Add, Sub, seq_len,
+from .smt import (T, INT, BOOL, SEQI, TRUE, FALSE, I, And, Or, Not, Eq, Ne, Lt, Le, Add, Sub, Ite, seq_len,
                   seq_concat, seq_unit, seq_empty, is_lit)
 from .state import State, Out, Unsupported
 from .values import *
@@ -340,6 +340,11 @@ class StmtMixin:
                 and isinstance(test.args[1], ast.Name):
             v = st.locals.get(test.args[0].id)
             ci = self.try_cls(test.args[1].id)
+            if isinstance(v, VAny) and ci is not None:
+                s2 = st.copy()
+                s2.locals[test.args[0].id] = VRef(v.t, ci.name)
+                s2.pc.append(And(Lt(I(0), v.t), Lt(v.t, s2.alloc)))
+                return s2
             if isinstance(v, VRef) and ci is not None:
                 cur = self.try_cls(v.cls)
                 if cur is not None and ci.is_subclass_of(cur) and ci is not cur:
@@ -351,7 +356,101 @@ class StmtMixin:
                 st = self.narrow(st, v, True)
         return st
 
+    # ---- state merging (keeps the number of paths polynomial) -----------------------------------
+    def merge_ok_outs(self, base: State, outs):
+        """Merge all 'ok' outcomes that extend `base` into one state (heap/alloc/clock/locals by ite on the
+        path-condition suffixes, which are mutually exclusive by construction).  Other outcomes are kept."""
+        oks = [o for o in outs if o.kind == "ok"]
+        rest = [o for o in outs if o.kind != "ok"]
+        if len(oks) < 2 or not self.merging:
+            return outs
+        n0 = len(base.pc)
+        for o in oks:
+            if o.st.pc[:n0] != base.pc or o.st.frame is not base.frame or o.st.held != base.held:
+                return outs
+        guards = [And(*o.st.pc[n0:]) for o in oks]
+        # locals
+        names = set()
+        for o in oks:
+            names |= set(o.st.locals)
+        merged_locals = {}
+        try:
+            for n in names:
+                vals = [o.st.locals.get(n) for o in oks]
+                if any(v is None for v in vals):
+                    if all(v is None for v in vals):
+                        continue
+                    return outs            # bound on some paths only
+                cur = vals[-1]
+                for g, v in zip(reversed(guards[:-1]), reversed(vals[:-1])):
+                    cur = self.merge_vals(g, v, cur)
+                merged_locals[n] = cur
+            ghost = {}
+            gnames = set()
+            for o in oks:
+                gnames |= set(o.st.ghost)
+            for n in gnames:
+                vals = [o.st.ghost.get(n) for o in oks]
+                if any(v is None for v in vals):
+                    continue
+                if isinstance(vals[0], dict):
+                    ghost[n] = vals[0]
+                    continue
+                cur = vals[-1]
+                for g, v in zip(reversed(guards[:-1]), reversed(vals[:-1])):
+                    cur = self.merge_vals(g, v, cur)
+                ghost[n] = cur
+        except Unsupported:
+            return outs
+        m = base.copy()
+        m.pc = list(base.pc) + [Or(*guards)]
+        m.locals = merged_locals
+        m.ghost = ghost
+        keys = set()
+        for o in oks:
+            keys |= set(o.st.heap)
+        for key in keys:
+            terms = []
+            for o in oks:
+                t = o.st.heap.get(key)
+                if t is None:
+                    t = self.initial_heap.get(key)
+                terms.append(t)
+            cur = terms[-1]
+            for g, t in zip(reversed(guards[:-1]), reversed(terms[:-1])):
+                cur = Ite(g, t, cur)
+            m.heap[key] = cur
+        for attr in ("alloc", "clock"):
+            terms = [getattr(o.st, attr) for o in oks]
+            cur = terms[-1]
+            for g, t in zip(reversed(guards[:-1]), reversed(terms[:-1])):
+                cur = Ite(g, t, cur)
+            setattr(m, attr, cur)
+        m.trace = base.trace + (f"merged{len(oks)}",)
+        m.exc_ctx = base.exc_ctx
+        return rest + [Out("ok", m)]
+
+    def merge_vals(self, g: T, a: Value, b: Value) -> Value:
+        if a is b:
+            return a
+        if isinstance(a, VPy) or isinstance(b, VPy):
+            if isinstance(a, VPy) and isinstance(b, VPy) and (a.what, a.obj) == (b.what, b.obj) and a.extra is b.extra:
+                return a
+            raise Unsupported("merge of python-level objects")
+        if isinstance(a, VExc) or isinstance(b, VExc):
+            raise Unsupported("merge of exceptions")
+        if isinstance(a, VRef) and isinstance(b, VRef) and a.cls != b.cls:
+            raise Unsupported("merge of different classes")
+        if type(a) is type(b) and isinstance(a, (VList, VDeque, VSet, VSeq)) and repr(a.elem) != repr(b.elem):
+            raise Unsupported("merge of different element kinds")
+        if hasattr(a, "t") and hasattr(b, "t") and a.t.s == b.t.s and type(a) is type(b):
+            return a
+        return self.merge(g, a, b)
+
     def ex_If(self, st, s):
+        return self.merge_ok_outs(st, self._ex_If(st, s))
+
+    def _ex_If(self, st, s):
         def got(s2, c):
             t = self.truthy(s2, c)
             outs = []
@@ -414,6 +513,9 @@ class StmtMixin:
         return "no"
 
     def ex_Try(self, st, s):
+        return self.merge_ok_outs(st, self._ex_Try(st, s))
+
+    def _ex_Try(self, st, s):
         body_outs = self.ex_block(st, s.body)
         after = []
         for o in body_outs:
@@ -463,6 +565,9 @@ class StmtMixin:
         return [o]
 
     def ex_Match(self, st, s):
+        return self.merge_ok_outs(st, self._ex_Match(st, s))
+
+    def _ex_Match(self, st, s):
         def got(s2, subj):
             outs = []
             cur = s2
@@ -643,7 +748,7 @@ class StmtMixin:
         if isinstance(it, VTuple):
             return it.items
         if isinstance(it, VList) and getattr(it, "static_items", None) is not None:
-            key = self._seq_key(it.elem)[0]
+            key = self._seq_key(it.elem, "list")[0]
             if st.heap.get(key) is it.static_heap:       # no list was written since the display
                 return it.static_items
         return None
@@ -695,6 +800,17 @@ class StmtMixin:
         outs = []
         # exit: everything was visited
         hx = h.assume(Eq(done, seq_t)).note(f"L{s.lineno}:exit")
+        if isinstance(it, VPy) and it.what == "dictview":
+            # completeness of the key sequence, instantiated for every ghost witness of the key sort:
+            # a key of the dictionary occurs in the iteration order
+            d = it.obj
+            ks = elem_sort(d.k)
+            cands = list(st.ghost.values()) + [v for n_, v in self.entry_names.items()]
+            for g in cands:
+                g = self.unwrap(g) if not isinstance(g, dict) else None
+                if g is not None and hasattr(g, "t") and g.t.sort == ks:
+                    from .smt import seq_contains_elem, Implies
+                    hx.pc.append(Implies(self.dict_has(hx, d, g.t), seq_contains_elem(seq_t, g.t)))
         outs.append(Out("ok", hx))
         # one more iteration
         x = self.decls.fresh(f"it{ord_}", esort)
